@@ -37,7 +37,7 @@ def c04_sig(v):
     return base
 
 
-HOOK_COMMITS = []
+HOOK_COMMITS = ["f882f03"]
 NOT_BUILT = {}
 
 PROPS = {
